@@ -154,6 +154,8 @@ def verify_bridge_elaborate():
     fv.add("one-local-signal-the-sequencer", "outer", pc_all, z3.BoolVal(len(made) == 1))
     fv.add("no-submodule", "outer", pc_all, z3.BoolVal(not [e for e in log.entries if e["kind"] == "submodule"]))
     fv.add("cover:first-and-later-granules", "vacuity", [], z3.BoolVal(n_first >= 1 and n_later >= 1))
+    from .hdlrec import stores_nothing_on_the_component as _frame
+    _frame(fv, ex)
     fv.add_engine_obligations(ex)
     return fv
 
